@@ -110,6 +110,13 @@ pub fn constants() -> Vec<(&'static str, i128)> {
         ("UDP_UDP_GRO", libc::UDP_GRO as i128),
         ("UDP_SCM_TIMESTAMPNS", libc::SCM_TIMESTAMPNS as i128),
         ("UDP_BATCH_SIZE", BATCH_SIZE as i128),
+        // what `UdpSocketState::gro_segments()` reports for a fresh loopback socket (1 = no GRO)
+        ("UDP_GRO_SEGMENTS", {
+            std::net::UdpSocket::bind("127.0.0.1:0")
+                .ok()
+                .and_then(|s| UdpSocketState::new((&s).into()).ok().map(|st| st.gro_segments() as i128))
+                .unwrap_or(-1)
+        }),
         ("UDP_LITTLE_ENDIAN", cfg!(target_endian = "little") as i128),
         (
             "UDP_SOCKADDR_IN_SIZE",
